@@ -69,4 +69,123 @@ theorem branch_verifies (leaves : List Bytes) (pos : Nat) (hp : pos < leaves.len
     verifyBranch H (leaves.getD pos []) pos (branch H leaves pos) = merkleRoot H leaves :=
   branchF_verifies H leaves.length leaves pos hp (Nat.le_refl _)
 
+
+/-! ## proof byte layout -/
+
+/-- **reverse_concat_layout**: the oracle's nodes are in RPC byte order; `createMerkleProof`
+    reverses each one back, so the proof bytes are the internal-order nodes concatenated. -/
+theorem createMerkleProof_layout (nodes : List Bytes) :
+    createMerkleProof (nodes.map List.reverse) = nodes.flatten := by
+  induction nodes with
+  | nil => rfl
+  | cons n ns ih =>
+    simp only [createMerkleProof, List.map_cons, List.flatMap_cons, List.reverse_reverse,
+      List.flatten_cons] at *
+    rw [ih]
+
+theorem chunksF_flatten (n : Nat) (hn : 0 < n) : ∀ (xs : List Bytes) (f : Nat),
+    (∀ x ∈ xs, x.length = n) → xs.flatten.length ≤ f → chunksF n f xs.flatten = xs
+  | [], f, _, _ => by cases f <;> simp [chunksF]
+  | x :: xs, 0, h, hf => by
+    have : x.length = n := h x (by simp)
+    simp only [List.flatten_cons, List.length_append] at hf; omega
+  | x :: xs, f + 1, h, hf => by
+    have hx : x.length = n := h x (by simp)
+    have hne : (x ++ xs.flatten).isEmpty = false := by
+      cases x with
+      | nil => simp only [List.length_nil] at hx; omega
+      | cons _ _ => rfl
+    simp only [List.flatten_cons, chunksF, hne, Bool.false_eq_true, if_false]
+    rw [List.take_left' hx, List.drop_left' hx]
+    rw [chunksF_flatten n hn xs f (fun y hy => h y (by simp [hy]))
+      (by simp only [List.flatten_cons, List.length_append] at hf; omega)]
+
+/-- the verifier's 32-byte (80-byte) chunking recovers the concatenated nodes (headers) -/
+theorem chunks_flatten (n : Nat) (hn : 0 < n) (xs : List Bytes) (h : ∀ x ∈ xs, x.length = n) :
+    chunks n xs.flatten = xs :=
+  chunksF_flatten n hn xs _ h (Nat.le_refl _)
+
+/-! ## growth between the confirmations query and the latest-height query -/
+
+theorem indexOf_some_mem : ∀ (l : List Bytes) (x : Bytes) (p : Nat), indexOf l x = some p → x ∈ l
+  | [], x, p, h => by simp [indexOf] at h
+  | y :: ys, x, p, h => by
+    unfold indexOf at h
+    by_cases hy : y = x
+    · simp [hy]
+    · rw [if_neg hy] at h
+      cases hi : indexOf ys x with
+      | none => simp [hi] at h
+      | some q => simp [indexOf_some_mem ys x q hi]
+
+theorem findHeightFrom_spec : ∀ (chain : List Block) (tip : Nat) (txid : Bytes) (off h : Nat),
+    findHeightFrom chain tip txid off = some h →
+      off ≤ h ∧ h ≤ tip ∧ ∃ b, chain[h - off]? = some b ∧ txid ∈ b.leaves
+  | [], _, _, _, _, hf => by simp [findHeightFrom] at hf
+  | b :: bs, tip, txid, off, h, hf => by
+    unfold findHeightFrom at hf
+    by_cases h1 : off > tip
+    · simp [h1] at hf
+    · rw [if_neg h1] at hf
+      cases hi : indexOf b.leaves txid with
+      | some p =>
+        simp [hi] at hf
+        subst hf
+        exact ⟨Nat.le_refl _, by omega, b, by simp, indexOf_some_mem _ _ _ hi⟩
+      | none =>
+        simp [hi] at hf
+        obtain ⟨a, c, b', hb, hm⟩ := findHeightFrom_spec bs tip txid (off + 1) h hf
+        refine ⟨by omega, c, b', ?_, hm⟩
+        have : h - off = (h - (off + 1)) + 1 := by omega
+        rw [this]; simpa using hb
+
+/-- the transaction id occurs in one block only (A-hash) -/
+def UniqueTx (chain : List Block) (txid : Bytes) : Prop :=
+  ∀ (i j : Nat) (bi bj : Block), chain[i]? = some bi → chain[j]? = some bj → txid ∈ bi.leaves → txid ∈ bj.leaves → i = j
+
+/-- **wrong_height_fails** (the oracle assumption made explicit): a Merkle query for a height
+    other than the transaction's block has no answer. -/
+theorem wrong_height_fails (chain : List Block) (tip : Nat) (txid : Bytes) (h x : Nat) (b : Block)
+    (hu : UniqueTx chain txid) (hb : chain[h]? = some b) (hm : txid ∈ b.leaves) (hx : x ≠ h) :
+    merkleQuery H chain tip txid x = none := by
+  unfold merkleQuery
+  split
+  · cases hc : chain[x]? with
+    | none => rfl
+    | some bx =>
+      cases hi : indexOf bx.leaves txid with
+      | none => simp [hi]
+      | some p =>
+        exact absurd (hu x h bx b hc hb (indexOf_some_mem _ _ _ hi) hm) hx
+  · rfl
+
+/-- **assemble_growth_early_fails** — the interesting schedule of the property: if any block
+    becomes visible between `GetTransactionConfirmations` and `GetLatestBlockHeight`
+    (`tips 2 ≠ tips 0`), the computed `txBlockHeight` is shifted by the growth, the Merkle query
+    for that height has no answer, and assembly returns an error — for every chain, every
+    transaction position, every later growth; never a proof for the wrong block. -/
+theorem assemble_growth_early_fails (chain : List Block) (tips : Nat → Nat) (txid : Bytes) (req : Nat)
+    (hu : UniqueTx chain txid) (mono : tips 0 ≤ tips 2) (hne : tips 2 ≠ tips 0)
+    (hW : tips 2 < 18446744073709551616) :
+    ∃ e, assemble H S chain tips txid req = .error e := by
+  unfold assemble
+  cases hf : findHeight chain (tips 0) txid with
+  | none => exact ⟨_, rfl⟩
+  | some h =>
+    obtain ⟨_, hle, b, hb, hm⟩ := findHeightFrom_spec chain (tips 0) txid 0 h hf
+    simp only [Nat.sub_zero] at hb
+    simp only []
+    split
+    · exact ⟨_, rfl⟩
+    · have hx : (tips 2 + 18446744073709551616 - (tips 0 - h + 1) + 1) % 18446744073709551616 ≠ h := by
+        omega
+      rw [wrong_height_fails H chain _ txid h _ b hu hb hm hx]
+      split <;> exact ⟨_, rfl⟩
+
+/-- with no growth before the latest-height query the computed height is the transaction's
+    block, also for height 0 where `latest - confirmations` passes through `-1` in `uint`. -/
+theorem txHeight_static (t h : Nat) (hle : h ≤ t) (hW : t < 18446744073709551616) :
+    (t + 18446744073709551616 - (t - h + 1) + 1) % 18446744073709551616 = h := by
+  omega
+
 end KeepVerif.C31
